@@ -403,7 +403,19 @@ impl MqttState {
                 "PubRec Pkid = {:?}, reason: {:?}",
                 pubrec.pkid, pubrec.reason
             );
-            return Ok(None);
+            // the publish was refused: no release follows, so its window slot is free again
+            self.inflight -= 1;
+            let packet = self.check_collision(pubrec.pkid).map(|publish| {
+                self.outgoing_pub[publish.pkid as usize] = Some(publish.clone());
+                self.inflight += 1;
+
+                let event = Event::Outgoing(Outgoing::Publish(publish.pkid));
+                self.events.push_back(event);
+                self.collision_ping_count = 0;
+
+                Packet::Publish(publish)
+            });
+            return Ok(packet);
         }
 
         // NOTE: Inflight - 1 for qos2 in comp
